@@ -2,6 +2,7 @@
 from lib import *
 from hist import *
 from fsgen import *
+import re
 
 RULE = ("forests with distinct root names over file-system-safe names x extension lists (empty, whole-name, overlapping, \"\") x "
         "target directories (cwd, existing, missing, nested, with trailing slash) x pre-states (empty; unrelated entries; any "
@@ -78,10 +79,23 @@ def run(ck, rng):
         if rng.random() < 0.12:
             op += "," + rng.choice("jyt")
         its = first_root if name.startswith("root") else flat
+        modes = False
+        if scen in ("empty", "unrelated") and ct != b"." and rng.random() < 0.3:
+            # the target exists with restrictive permission bits, the umask is unusual, snapshots carry the bits:
+            # nothing that existed may change its MODE either (not modelled: predicate only)
+            pre = [(p_, "dm700" if p_ == ct else k_) for p_, k_ in pre]
+            if not any(p_ == ct for p_, _ in pre):
+                pre.append((ct, "dm700"))
+            pre.append((rng.choice([b"022", b"002", b"077"]), "u"))
+            modes = True
         cases.append(("mhist " if massive else "hist ") + "F,%s;%s" % (snap_arg(pre), op))
-        meta.append((name + ("_massive" if massive else ""), its, exts, target, scen, pre))
+        meta.append((name + ("_massive" if massive else "") + ("_modes" if modes else ""), its, exts, target, scen, pre))
     impl, _ = run_impl(exe, cases)
-    model = run_model([c[1:] if c.startswith("m") else c for c in cases])
+    def model_case(c):
+        c = c[1:] if c.startswith("m") else c
+        # permission bits and the umask are not modelled
+        return re.sub(r"dm[0-7]+:", "d:", re.sub(r"\+?u:[0-9a-f]+", "", c)).replace("F,+", "F,")
+    model = run_model([model_case(c) for c in cases])
     broken = None
     for i, (name, its, exts, target, scen, pre) in enumerate(meta):
         ck.case(cases[i][:500], len(its) >= 3 or scen not in ("empty", "unrelated"))
@@ -92,13 +106,15 @@ def run(ck, rng):
             ck.violation({"property": ck.pid, "kind": "abnormal", "class": "abnormal|" + parts[0].split(" ")[0], "case": cases[i], "got": impl[i][-300:],
                           "why": "the call did not return normally: " + parts[0]})
             continue
-        before = parse_snap(parts[0].split(" ")[2])
+        before_full = parse_snap(parts[0].split(" ")[2])
+        before = {p_: k_[0] for p_, k_ in before_full.items()}
         r, _, snap = fs_result(parts[-1])
         if r in ("panic", "crash", "timeout") or len(parts) < 2:
             ck.violation({"property": ck.pid, "kind": "abnormal", "class": "abnormal|" + r, "case": cases[i], "got": impl[i][-300:],
                           "why": "the call did not return normally: " + r})
             continue
-        after = parse_snap(snap)
+        after_full = parse_snap(snap)
+        after = {p_: k_[0] for p_, k_ in after_full.items()}
         np_ = node_paths(its, exts)
         ct = clean_target(target)
         want_new = {tjoin(target, p): k for p, k, _ in np_}
@@ -108,7 +124,7 @@ def run(ck, rng):
         roots = [tjoin(target, p) for p, k, _ in np_ if b"/" not in p]
         root_exists = any(x in before for x in roots)
         bad = None
-        unchanged = all(after.get(p) == k for p, k in before.items())
+        unchanged = all(after_full.get(p) == k for p, k in before_full.items())     # kind AND (when recorded) permission bits
         if not unchanged:
             bad = "an entry that existed before was changed or removed"
         elif scen == "long_name" or scen == "target_is_file":
@@ -133,6 +149,6 @@ def run(ck, rng):
         if bad:
             ck.violation({"property": "C06", "kind": "mkdir_exact", "class": scen + "|" + name + "|" + bad[:20], "case": cases[i],
                           "got": impl[i][-700:], "why": bad, "expected": model[i]})
-        elif "massive" not in name and impl[i] != model[i]:
+        elif "massive" not in name and "_modes" not in name and impl[i] != model[i]:
             broken = broken or (cases[i][:1500], impl[i][-400:], model[i][-400:])
     return broken
